@@ -201,6 +201,7 @@ def run_check(prop, tier, verif_seed, replay_file=None, budget_override=None):
             "mode": "explore", "property": prop, "tier": tier, "verif_seed": verif_seed,
             "start": k, "stride": nworkers, "max_index": max_index, "wall_s": wall,
             "out": os.path.join(rundir, f"w{k}.jsonl"), "sample_below": 3,
+            "known": [[kf["cls"], kf["site"]] for kf in load_known() if kf["property"] == prop],
         }
         lf = open(os.path.join(rundir, f"w{k}.log"), "wb")
         args["variant"] = k % len(variants)
